@@ -63,11 +63,6 @@ Example C17_example :
   unmarshal_bin [1; 2; 3]%N = None.
 Proof. vm_compute. repeat split; reflexivity. Qed.
 
-Print Assumptions C17_bin_roundtrip.
-Print Assumptions C17_bin_shape.
-Print Assumptions C17_bin_reject.
-Print Assumptions C17_bin_bijective.
-Print Assumptions C17_bin_append.
-Print Assumptions C17_json_roundtrip.
-Print Assumptions C17_load_dump_alive.
-Print Assumptions C17_load_dump_future.
+(** One traversal of the dependency graph for all theorems of this file. *)
+Definition C17_all := (C17_bin_roundtrip, C17_bin_shape, C17_bin_reject, C17_bin_bijective, C17_bin_append, C17_json_roundtrip, C17_load_dump_alive, C17_load_dump_future).
+Print Assumptions C17_all.
